@@ -1408,3 +1408,34 @@ func genBigDedupVals(t *rapid.T, keys []string, enc string) []Hex {
 	}
 	return vals
 }
+
+// genStepless (C17; the seeded change C17-d had been caught by a lucky large
+// case): thousands of inner nodes and not a single step — every nibble position
+// branches. K has no step, P+K has exactly one: whatever the library stores per
+// inner node only "when some node has a step" shows up as a size difference
+// proportional to the node count.
+func genStepless(t *rapid.T) []string {
+	depth := rapid.IntRange(11, 13).Draw(t, "sldepth")
+	if depth%2 == 1 {
+		depth++ // whole bytes
+	}
+	a := byte(rapid.IntRange(0, 14).Draw(t, "slnib"))
+	b := a + 1 + byte(rapid.IntRange(0, int(14-a)).Draw(t, "slnib2"))
+	keys := make([]string, 0, 1<<uint(depth))
+	for i := 0; i < 1<<uint(depth); i++ {
+		k := make([]byte, depth/2)
+		for j := 0; j < depth; j++ {
+			n := a
+			if i>>uint(depth-1-j)&1 == 1 {
+				n = b
+			}
+			if j%2 == 0 {
+				k[j/2] = n << 4
+			} else {
+				k[j/2] |= n
+			}
+		}
+		keys = append(keys, string(k))
+	}
+	return keys
+}
